@@ -383,7 +383,7 @@ def run(rep):
     def mark(name, t0): phases[name] = round(time.time() - t0, 1)
     # ---- pyvc first (fork pools before TensorFlow is loaded into this process)
     t0 = time.time(); pyvc_helpers(rep); mark('pyvc list helpers + no-quant op', t0)
-    t0 = time.time(); gc.dtype_tables(rep, P); gc.insert_obligations(rep, P); gc.performer_obligations(rep, P); gc.vertical_obligations(rep, P); resolution_obligations(rep); mark('dtype tables + insert_quant / insert_dequant + vertical optimisation (graphcommon)', t0)
+    t0 = time.time(); gc.dtype_tables(rep, P); gc.insert_obligations(rep, P); gc.performer_obligations(rep, P); gc.vertical_obligations(rep, P); gc.tensorinfo_obligations(rep, P); gc.produce_obligations(rep, P); gc.compose_obligations(rep, P); resolution_obligations(rep); mark('dtype tables + insert_quant / insert_dequant + vertical optimisation (graphcommon)', t0)
     from replay import c03_native as N
     t0 = time.time(); m = N.load(); mark('loading the real modules', t0)
     F = lambda rel, q: rep.fn(core.Fn(rel, q))
